@@ -297,6 +297,10 @@ class VEngine(Engine):
 
     def check_raises(self, c, fi, raises):
         for i, x in enumerate(raises):
+            for exc_cls, cl in c.exc_classes:
+                if x.exc != exc_cls:
+                    cond = self.eval_clause(cl, x.st, pre=self.entry_state, polarity=-1)
+                    self.oblige("raise::%s@%s::%s" % (x.exc, getattr(x, "tag", "?"), cl.name), x.st, z3.Not(cond), "raises", True, cl.props or ("C10",), fi.node, cl)
             allowed = [rs for rs in c.raises if exc_matches(x.exc, rs.exc) or exc_matches(rs.exc, x.exc) and x.exc in ("Exception",)]
             name = "raise::%s@%s" % (x.exc, getattr(x, "tag", None) or (x.where or "?").split(":")[-1])
             if not allowed:
